@@ -598,3 +598,6 @@ _more("C35", "Added (C35-truncate-udp-only): the truncation decision of evdns_se
 _more("C39", "Added (C39-inflight-table): the in-flight request table's pointer and length are stored back to back (no resolver code looks at either in between) and max-inflight re-files every "
              "request into the new table modulo the new length.")
 _more("C06", "The table index may be computed by a helper function: it is then evaluated with C integer types (a narrow temporary truncates) for all 512 combinations.")
+_more("C29", "Added (C29-decode-eval): evhttp_decode_uri_internal evaluated on 1294 inputs in byte memory (every string over {a % 4 z + ?} up to length 3, longer escape forms, every pair of "
+             "hexadecimal digits) x the three plus-modes: documented decoding, terminator, returned length, no write outside the output block, no read behind the input.")
+_more("C32", "Added (C32-frame-eval): make_ws_frame evaluated for 5 opcodes x 13 payload lengths around every length-form boundary appends exactly the RFC 6455 header and then the payload, by copy.")
